@@ -1,6 +1,7 @@
 import Propka.Model.Hybrid36
 import Propka.Model.Rotation
 import Propka.Model.BondsDriver
+import Propka.Model.ParamsDriver
 /-! Line-protocol driver: one request per line `<module> <args…>`, one response line each. -/
 open Propka
 
@@ -9,6 +10,7 @@ def dispatch (ws : List String) : String :=
   | "h36" :: r => H36.handle r
   | "rot" :: r => Rot.handle r
   | "bonds" :: r => Bonds.handle r
+  | "params" :: r => Params.handle r
   | ["ping"] => "pong"
   | _ => "bad-op"
 
